@@ -1,9 +1,330 @@
-(* Props/C11.v — theorems of property C11 (statements only; proofs in Proofs/StateLock*.v). *)
-From Eino Require Import Base.Util Model.StateLock Proofs.StateLock.
+(* Props/C11.v — theorems of property C11: graph state is per run and accessed under mutual
+   exclusion (statements only; proofs in Proofs/StateLock*.v).
+
+   Object: the transition system [pstep] of Model/StateLockLTS.v — one lock per state object,
+   critical sections (state pre-handler, state post-handler, ProcessState callback) in four
+   micro-steps, node goroutines and run-loop moves interleaved in every possible way, nested
+   graph instances, resume. [preach c]: c is reachable by any sequence of [pstep] moves;
+   [reach] adds the scheduling constraints of the run loop and is included in [preach]. All
+   theorems quantify over every state type, value type, generator, handler functions,
+   forest of graphs, input and every reachable configuration (= every interleaving, every
+   nesting, every interrupt point). Corr/C11.v makes this very transition system replay the
+   log observed on the implementation ([drive], [drive_sound]) and compares what it
+   computes with what was observed. *)
+From Eino Require Import Base.Util Model.StateLock Model.StateLockLTS Model.StateLockDrive.
+From Eino Require Import Proofs.StateLockLTS Proofs.StateLockVal Proofs.StateLockOrder Proofs.StateLockFlow
+  Proofs.StateLockOwn Proofs.StateLockAcq Proofs.StateLockNest Proofs.StateLockDrive Proofs.StateLock.
+From Coq Require Import Permutation Sorted.
 Open Scope N_scope.
 
+(* the run loop's scheduling only removes interleavings *)
+Theorem reach_included :
+  forall (S X : Type) (gen : nat -> S) (hfun : kind -> N -> X -> S -> X * S) (lout : N -> X -> X)
+         (mrg : list X -> X) (f : forest) (x0 : X) (c : config S X),
+  reach S X gen hfun lout mrg f x0 c -> preach S X gen hfun lout mrg f x0 c.
+Proof. exact reach_preach. Qed.
+
+(* pre-handlers, post-handlers and ProcessState callbacks on the same state object are
+   mutually exclusive: two critical sections in progress on one object are the same one *)
+Theorem mutex :
+  forall (S X : Type) (gen : nat -> S) (hfun : kind -> N -> X -> S -> X * S) (lout : N -> X -> X)
+         (mrg : list X -> X) (f : forest) (x0 : X) (c : config S X),
+  preach S X gen hfun lout mrg f x0 c ->
+  forall i n i' n' o, in_cs S X c i n o -> in_cs S X c i' n' o -> i = i' /\ n = n'.
+Proof. exact mutex_preach. Qed.
+
+(* no update is lost: the value of a state object is, at every moment, the fold of the
+   effects of all critical sections performed on it, in the order in which they held the
+   lock, starting from the value the object was created with *)
+Theorem no_lost_update :
+  forall (S X : Type) (gen : nat -> S) (hfun : kind -> N -> X -> S -> X * S) (lout : N -> X -> X)
+         (mrg : list X -> X) (f : forest) (x0 : X) (c : config S X),
+  preach S X gen hfun lout mrg f x0 c ->
+  forall o r, nth_error (c_objs c) o = Some r ->
+    o_val r = apply_all S X hfun (hist S X c o) (o_init r).
+Proof. exact no_lost_update_preach. Qed.
+
+(* the log [hist] that no_lost_update folds over (sections in the order their user functions
+   completed) is the order in which the lock of the object was acquired: per object the
+   acquisition log equals the completion log, plus at most the holder's section in progress *)
+Theorem acquisition_order :
+  forall (S X : Type) (gen : nat -> S) (hfun : kind -> N -> X -> S -> X * S) (lout : N -> X -> X)
+         (mrg : list X -> X) (f : forest) (x0 : X) (c : config S X),
+  preach S X gen hfun lout mrg f x0 c ->
+  forall o r, nth_error (c_objs c) o = Some r ->
+    match o_holder r with
+    | None => acq_of S X c o = done_of S X c o
+    | Some (i, n) => acq_of S X c o = done_of S X c o \/
+                     exists k, acq_of S X c o = done_of S X c o ++ [(i, n, k)]
+    end.
+Proof. exact acquisition_order_preach. Qed.
+
+(* ... and for effects that commute, of any order of them *)
+Theorem no_lost_update_any_order :
+  forall (S X : Type) (gen : nat -> S) (hfun : kind -> N -> X -> S -> X * S) (lout : N -> X -> X)
+         (mrg : list X -> X) (f : forest) (x0 : X) (c : config S X),
+  preach S X gen hfun lout mrg f x0 c ->
+  forall o r l', nth_error (c_objs c) o = Some r -> Permutation (hist S X c o) l' ->
+    (forall e1 e2 s, In e1 (hist S X c o) -> In e2 (hist S X c o) ->
+       eff S X hfun e1 (eff S X hfun e2 s) = eff S X hfun e2 (eff S X hfun e1 s)) ->
+    o_val r = apply_all S X hfun l' (o_init r).
+Proof. exact no_lost_update_commutative. Qed.
+
+(* a node's pre-handler runs before it, its ProcessState callbacks one after the other,
+   its post-handler after it, none of them twice: what one node of one graph instance has
+   performed is always an initial segment of [full_kinds] (pre, bodies in order, post),
+   all of it once the node's output is final *)
+Theorem pre_node_post_order :
+  forall (S X : Type) (gen : nat -> S) (hfun : kind -> N -> X -> S -> X * S) (lout : N -> X -> X)
+         (mrg : list X -> X) (f : forest) (x0 : X) (c : config S X),
+  preach S X gen hfun lout mrg f x0 c ->
+  forall i J G n a s,
+    nth_error (c_insts c) i = Some J -> nth_error f (i_graph J) = Some G ->
+    find_in_graph n (g_nodes G) = Some a -> get_ns S X J n = Some s ->
+    (exists rest, node_tr S X c i n ++ rest = full_kinds a) /\
+    (forall y, ns_pos s = PFin y -> node_tr S X c i n = full_kinds a) /\
+    StronglySorted kind_before (full_kinds a).
+Proof. exact node_order_preach. Qed.
+
+(* order across nodes: when a critical section of node b is logged, every predecessor of b
+   has performed all its critical sections and performs none afterwards (so what a
+   post-handler returned is settled before any successor starts) *)
+Theorem preds_before_succs :
+  forall (S X : Type) (gen : nat -> S) (hfun : kind -> N -> X -> S -> X * S) (lout : N -> X -> X)
+         (mrg : list X -> X) (f : forest) (x0 : X) (c : config S X),
+  preach S X gen hfun lout mrg f x0 c ->
+  forall t1 eb t2, c_trace c = t1 ++ eb :: t2 ->
+  forall J G b, nth_error (c_insts c) (t_inst eb) = Some J -> nth_error f (i_graph J) = Some G ->
+    find_in_graph (n_id (t_node eb)) (g_nodes G) = Some b ->
+  forall p a, In p (n_preds b) -> find_in_graph p (g_nodes G) = Some a ->
+    kinds_in S X (t_inst eb) p t1 = full_kinds a /\ kinds_in S X (t_inst eb) p (eb :: t2) = [].
+Proof. exact preds_before_succs_preach. Qed.
+
+(* a graph node's pre-handler runs before everything inside the nested graph and its
+   post-handler after: when a critical section of a nested instance is logged, the node that
+   runs the instance has performed exactly its pre-handler (programs whose graphs list every
+   node after its predecessors, with distinct ids: [topo_ok], evaluated on every case) *)
+Theorem nested_between :
+  forall (S X : Type) (gen : nat -> S) (hfun : kind -> N -> X -> S -> X * S) (lout : N -> X -> X)
+         (mrg : list X -> X) (f : forest) (x0 : X) (c : config S X),
+  preach S X gen hfun lout mrg f x0 c -> topo_ok f = true ->
+  forall t1 ec t2, c_trace c = t1 ++ ec :: t2 ->
+  forall CI i, nth_error (c_insts c) (t_inst ec) = Some CI -> i_parent CI = Some i ->
+  exists J G n a, nth_error (c_insts c) i = Some J /\ nth_error f (i_graph J) = Some G /\
+    find_in_graph n (g_nodes G) = Some a /\ n_sub a = Some (i_graph CI) /\
+    kinds_in S X i n (t1 ++ [ec]) = pre_k a.
+Proof. exact nested_between_preach. Qed.
+
+(* the values the handlers return are what the node and its successors receive: every
+   critical section received the value [exp_in] determines from what earlier handlers
+   returned (node input = merge of the predecessors' final outputs; input of the body =
+   what the pre-handler returned; input of the post-handler = the node's output; final
+   output = what the post-handler returned), it returned what the user function computed
+   from that value and the state it found, and every register of every node holds the
+   value determined the same way ([reg_ok]) *)
+Theorem handler_values_flow :
+  forall (S X : Type) (gen : nat -> S) (hfun : kind -> N -> X -> S -> X * S) (lout : N -> X -> X)
+         (mrg : list X -> X) (f : forest) (x0 : X) (c : config S X),
+  preach S X gen hfun lout mrg f x0 c ->
+  (forall e, In e (c_trace c) ->
+     exp_in S X lout mrg f c (t_inst e) (t_node e) (t_kind e) (t_x e) /\
+     t_out e = fst (hfun (t_kind e) (n_id (t_node e)) (t_x e) (t_seen e))) /\
+  (forall i J G n a s,
+     nth_error (c_insts c) i = Some J -> nth_error f (i_graph J) = Some G ->
+     find_in_graph n (g_nodes G) = Some a -> get_ns S X J n = Some s ->
+     reg_ok S X lout mrg f c i a (ns_pos s) (ns_cs s)).
+Proof. exact handler_values_flow_preach. Qed.
+
+(* state is per run and per stateful graph instance: instances of different runs never
+   see the same object; two instances of graphs that declare state never see the same
+   object; a graph that declares state sees an object of its own; a nested graph without
+   state sees exactly what its parent sees; an object made by a generator starts from the
+   generated value; one generator call per object made *)
+Theorem fresh_state_per_run_and_nesting :
+  forall (S X : Type) (gen : nat -> S) (hfun : kind -> N -> X -> S -> X * S) (lout : N -> X -> X)
+         (mrg : list X -> X) (f : forest) (x0 : X) (c : config S X),
+  preach S X gen hfun lout mrg f x0 c ->
+  (forall i i' J J' o, nth_error (c_insts c) i = Some J -> nth_error (c_insts c) i' = Some J' ->
+      i_obj J = Some o -> i_obj J' = Some o -> i_run J = i_run J') /\
+  (forall i i' J J' o, nth_error (c_insts c) i = Some J -> nth_error (c_insts c) i' = Some J' ->
+      stateful S X f J = true -> stateful S X f J' = true ->
+      i_obj J = Some o -> i_obj J' = Some o -> i = i') /\
+  (forall i J, nth_error (c_insts c) i = Some J -> stateful S X f J = true ->
+      exists o r, i_obj J = Some o /\ nth_error (c_objs c) o = Some r /\ o_inst r = i) /\
+  (forall i J, nth_error (c_insts c) i = Some J -> stateful S X f J = false ->
+      match i_parent J with
+      | None => i_obj J = None
+      | Some pi => exists PJ, nth_error (c_insts c) pi = Some PJ /\ i_obj J = i_obj PJ /\ i_run PJ = i_run J
+      end) /\
+  (forall o r g, nth_error (c_objs c) o = Some r -> o_origin r = OGen g ->
+      o_init r = gen g /\ exists K, nth_error (c_insts c) (o_inst r) = Some K /\ i_graph K = g) /\
+  c_gens c = flat_map (ogen S) (c_objs c).
+Proof. exact fresh_state_preach. Qed.
+
+(* the state is carried unchanged, apart from the caller's modifier, across interrupt and
+   resume: the object made at resume starts from m applied to the fold of everything that
+   happened to the old object, nobody sees the old object again, and what happens after
+   the resume is folded on top *)
+Theorem state_survives_resume :
+  forall (S X : Type) (gen : nat -> S) (hfun : kind -> N -> X -> S -> X * S) (lout : N -> X -> X)
+         (mrg : list X -> X) (f : forest) (x0 : X) (c : config S X),
+  preach S X gen hfun lout mrg f x0 c ->
+  forall o' r' o m, nth_error (c_objs c) o' = Some r' -> o_origin r' = OResumed o m ->
+  exists r, nth_error (c_objs c) o = Some r /\ (o < o')%nat /\ dead S X c o /\ o_holder r = None /\
+            o_inst r' = o_inst r /\
+            o_init r' = m (apply_all S X hfun (hist S X c o) (o_init r)) /\
+            o_val r' = apply_all S X hfun (hist S X c o')
+                                 (m (apply_all S X hfun (hist S X c o) (o_init r))).
+Proof. exact state_survives_resume_preach. Qed.
+
+(* the critical-section function of the harness counts and logs every section once *)
 Theorem cs_counts_once : forall k n x s,
   s_total (snd (cs_fun k n x s)) = (s_total s + 1)%Z /\
   s_log (snd (cs_fun k n x s)) = s_log s ++ [code n k].
 Proof. exact cs_fun_counts_once. Qed.
+
+(* hence the counter kept in the state = number of critical sections performed on it, and
+   the log kept in the state = these sections in lock order (what the harness compares) *)
+Theorem final_counters : forall f x0 c,
+  preach sstate X gen_state cs_fun leaf_out merge f x0 c ->
+  forall o r, nth_error (c_objs c) o = Some r ->
+    s_total (o_val r) = (s_total (o_init r) + Z.of_nat (List.length (hist sstate X c o)))%Z /\
+    s_log (o_val r) = s_log (o_init r) ++ map code_of (hist sstate X c o).
+Proof. exact final_counters_preach. Qed.
+
+(* the model can express the defect: with a lock that does not block (what a handler that
+   forgets the mutex amounts to) an update is lost and two sections overlap *)
+Theorem no_lost_update_without_lock_refuted :
+  ~ (forall l c, run_steps sstate X (pstep_nolock sstate X gen_state cs_fun leaf_out merge ex_forest ex_x0)
+                           (init_cfg sstate X) l = Some c ->
+       forall o r, nth_error (c_objs c) o = Some r ->
+         o_val r = apply_all sstate X cs_fun (hist sstate X c o) (o_init r)).
+Proof. exact no_lost_update_nolock_refuted. Qed.
+
+Theorem mutex_without_lock_refuted :
+  ~ (forall l c, run_steps sstate X (pstep_nolock sstate X gen_state cs_fun leaf_out merge ex_forest ex_x0)
+                           (init_cfg sstate X) l = Some c ->
+       forall i n i' n' o, in_cs sstate X c i n o -> in_cs sstate X c i' n' o -> i = i' /\ n = n').
+Proof. exact mutex_nolock_refuted. Qed.
+
+(* the configuration Corr/C11.v computes from an observed log is reachable *)
+Theorem drive_reachable : forall f x0 runs l c,
+  drive f x0 runs l = DOk c -> preach sstate X gen_state cs_fun leaf_out merge f x0 c.
+Proof. exact drive_sound. Qed.
+
+Print Assumptions reach_included.
+Print Assumptions mutex.
+Print Assumptions no_lost_update.
+Print Assumptions acquisition_order.
+Print Assumptions no_lost_update_any_order.
+Print Assumptions pre_node_post_order.
+Print Assumptions preds_before_succs.
+Print Assumptions nested_between.
+Print Assumptions handler_values_flow.
+Print Assumptions fresh_state_per_run_and_nesting.
+Print Assumptions state_survives_resume.
 Print Assumptions cs_counts_once.
+Print Assumptions final_counters.
+Print Assumptions no_lost_update_without_lock_refuted.
+Print Assumptions mutex_without_lock_refuted.
+Print Assumptions drive_reachable.
+
+(* ------------------------------------------------------------------ non-vacuity *)
+
+Notation ex_preach := (preach sstate X gen_state cs_fun leaf_out merge ex_forest ex_x0).
+
+(* reach / preach are inhabited by complete, interleaved runs *)
+Example ex_final_reach : reach sstate X gen_state cs_fun leaf_out merge ex_forest ex_x0 ex_final.
+Proof. apply ex_run_reach. Qed.
+Example ex_final_complete :
+  all_final sstate X ex_final = true /\ List.length (c_trace ex_final) = 13%nat /\
+  List.length (c_insts ex_final) = 2%nat.
+Proof. vm_compute. auto. Qed.
+
+(* mutex: a reachable configuration with a critical section in progress; a parallel node
+   whose ProcessState call is due cannot take the lock, and can once it is released *)
+Example ex_mutex_hyp : ex_preach ex_contend /\ in_cs sstate X ex_contend 0%nat 1 0%nat.
+Proof.
+  split; [apply ex_contend_preach|].
+  eexists _, _, _. vm_compute. repeat split; reflexivity.
+Qed.
+Example ex_mutex_blocks :
+  ex_pstep ex_contend (ChAcq 0%nat 2) = None /\
+  (exists c1 c2 c3, ex_pstep ex_contend (ChStore 0%nat 1) = Some c1 /\ ex_pstep c1 (ChRel 0%nat 1) = Some c2 /\
+                    ex_pstep c2 (ChAcq 0%nat 2) = Some c3).
+Proof.
+  split; [vm_compute; reflexivity|].
+  eexists _, _, _. vm_compute. repeat split; reflexivity.
+Qed.
+
+(* no_lost_update: an object updated by three parallel nodes and by a nested graph's nodes,
+   interleaved *)
+Example ex_no_lost_update :
+  map (fun e => (t_inst e, n_id (t_node e))) (hist sstate X ex_final 0%nat) =
+    [(0%nat, 3); (0%nat, 1); (0%nat, 2); (0%nat, 1); (0%nat, 2); (0%nat, 1); (1%nat, 5); (1%nat, 5);
+     (0%nat, 1); (1%nat, 6); (0%nat, 4); (0%nat, 4); (0%nat, 4)] /\
+  map (fun r => s_total (o_val r)) (c_objs ex_final) = [13%Z].
+Proof. vm_compute. auto. Qed.
+
+(* acquisition_order: while node 1 holds the lock its section is the one acquisition not yet
+   completed *)
+Example ex_acq : acq_of sstate X ex_contend 0%nat = done_of sstate X ex_contend 0%nat ++ [(0%nat, 1, KBody 0)] /\
+                 acq_of sstate X ex_final 0%nat = done_of sstate X ex_final 0%nat.
+Proof. vm_compute. auto. Qed.
+
+(* pre_node_post_order: node 1 of the example performs pre, two bodies, post *)
+Example ex_order : node_tr sstate X ex_final 0%nat 1 = [KPre; KBody 0; KBody 1; KPost] /\
+                   node_tr sstate X ex_mid 0%nat 1 = [].
+Proof. vm_compute. auto. Qed.
+
+(* preds_before_succs / nested_between: the example program is well formed; the log splits at
+   a section of the join node 4 (after all sections of its predecessors 1, 2) and at a section
+   of the nested instance 1 (the enclosing node 3 has performed its pre-handler only) *)
+Example ex_topo : topo_ok ex_forest = true.
+Proof. vm_compute. reflexivity. Qed.
+Example ex_cross :
+  exists t1 eb t2, c_trace ex_final = t1 ++ eb :: t2 /\ t_inst eb = 0%nat /\ n_id (t_node eb) = 4 /\
+    kinds_in sstate X 0%nat 1 t1 = [KPre; KBody 0; KBody 1; KPost] /\
+    kinds_in sstate X 0%nat 2 t1 = [KBody 0; KPost].
+Proof.
+  exists (firstn 10 (c_trace ex_final)), (nth 10 (c_trace ex_final) (mkT 0 0 (mkNode 0 false false None 0 []) KPre [] (gen_state 0) [])),
+         (skipn 11 (c_trace ex_final)).
+  vm_compute. repeat split; reflexivity.
+Qed.
+Example ex_nested :
+  exists t1 ec t2, c_trace ex_final = t1 ++ ec :: t2 /\ t_inst ec = 1%nat /\
+    map (@i_parent sstate X) (c_insts ex_final) = [None; Some 0%nat] /\
+    kinds_in sstate X 0%nat 3 (t1 ++ [ec]) = [KPre].
+Proof.
+  exists (firstn 6 (c_trace ex_final)), (nth 6 (c_trace ex_final) (mkT 0 0 (mkNode 0 false false None 0 []) KPre [] (gen_state 0) [])),
+         (skipn 7 (c_trace ex_final)).
+  vm_compute. repeat split; reflexivity.
+Qed.
+
+(* handler_values_flow: the trace is not empty and the join node received the merge of
+   three final outputs *)
+Example ex_flow : exists e, In e (c_trace ex_final) /\ n_id (t_node e) = 4 /\ t_kind e = KPre /\
+                            List.length (t_x e) = 3%nat.
+Proof. eexists. vm_compute. repeat split; [do 10 right; left; reflexivity|..]; reflexivity. Qed.
+
+(* fresh_state: two instances (top-level graph with state, nested graph without state) see
+   the one object made by the one generator call *)
+Example ex_fresh : map (@i_obj sstate X) (c_insts ex_final) = [Some 0%nat; Some 0%nat] /\
+                   c_gens ex_final = [0%nat].
+Proof. vm_compute. auto. Qed.
+
+(* state_survives_resume: a reachable configuration with a resumed object *)
+Example ex_resume : ex_preach ex_resumed /\
+  map (fun r => (s_total (o_val r), s_total (o_init r),
+                 match o_origin r with OGen _ => 0 | OResumed o _ => 1 + N.of_nat o end)) (c_objs ex_resumed)
+  = [(1%Z, 0%Z, 0); (100002%Z, 100001%Z, 1)].
+Proof. split; [apply ex_resumed_preach|]. vm_compute. reflexivity. Qed.
+
+(* drive: replaying a two-section log of the example forest succeeds *)
+Example ex_drive :
+  match drive ex_forest ex_x0 1
+          [IEv (mkEv 0 1 KPre 0 [(0, 5%Z)] (fst (cs_fun KPre 1 [(0, 5%Z)] (gen_state 0))) 0%Z)] with
+  | DOk c => List.length (c_trace c) = 1%nat
+  | DBad _ => False
+  end.
+Proof. vm_compute. reflexivity. Qed.
